@@ -270,6 +270,9 @@ func (mo *Monitor) AfterBlock(b *forge.Block) error {
 					props["C12"] = true
 					props["C07"] = true
 				}
+				if h >= e.V20 && h%144 == 0 && t == fat2.PTickerPEG {
+					props["C14"] = true // at a snapshot height a PEG balance changes by the holder payout (and rewards) only
+				}
 				if isScheduledIssuanceAddress(a) {
 					props["C15"] = true // developer, burn and mint addresses change by the schedule and by nothing else unscripted
 				}
@@ -718,6 +721,11 @@ func modelRun(j *orch.Job, r *orch.Result) error {
 	}
 	if p.Literal {
 		p.Window = 288
+	}
+	if containsStr(p.Features, "mint-key") {
+		a := mintKey(p.Seed).FA().String()
+		node.GlobalMintAddress, rules.GlobalMintAddress = a, a
+		scheduledAddrs = nil
 	}
 	e, m, tip := buildWorkload(&p)
 	setAvg(p.Window)
